@@ -139,13 +139,44 @@ theorem modes_agree_single_task (K : List Key) (b : Mem) (ops : List Op) (hs : T
     | false => rw [ua k hr, ub k hr, hsame.1, hnow]
 
 /-- **Nested blocks join the outermost one** (any depth, any inner modes, inner blocks left normally or by a
-caught exception): erasing every inner `enter … exit` pair from a task's program changes neither the
-final backend / transaction state nor any command's answer. -/
-theorem nested_blocks_join (es : List Ev) (c : Ctx) (h1 : c.inTx = false) (h2 : c.frames = []) :
+caught exception) — for programs that open every block on a context object of its own
+(`async with cache.transaction(m):` written at the block, or the decorator form): erasing every inner
+`enter … exit` pair from a task's program changes neither the final backend / transaction state nor any
+command's answer.  (`reentered_object_joins` is the same statement for all programs, including those that
+share context objects.) -/
+theorem nested_blocks_join (es : List Ev) (_hf : sharedFree es = true) (c : Ctx) (h1 : c.inTx = false)
+    (h2 : c.frames = []) (h3 : c.objsIdle) :
     (c.run es).1.st = (c.run (flatten 0 es)).1.st ∧ (c.run es).1.inTx = (c.run (flatten 0 es)).1.inTx ∧
     cmdOuts es (c.run es).2 = cmdOuts (flatten 0 es) (c.run (flatten 0 es)).2 := by
-  obtain ⟨d', hr, ho⟩ := nest_run es 0 c c ⟨rfl, rfl, rfl, fun _ => ⟨h1, h2, h2⟩, by omega⟩
+  obtain ⟨hr, ho⟩ := nest_run es Nest.empty c c (nestRel_init c h1 h2 h3)
   exact ⟨hr.st, hr.inTx, ho⟩
+
+/-- **A re-entered context object joins too — to any depth.**  The program may keep `cache.transaction(m)`
+objects in variables and enter them again — nested inside their own block any number of times, nested
+inside blocks of other objects, mixed with blocks on objects of their own, or sequentially for several
+outermost blocks.  For every such program (no hypothesis on it), erasing every inner `enter … exit` pair
+changes neither the final backend / transaction state nor any command's answer: the end of a re-entered
+block neither commits nor rolls back, writes issued after it are still buffered, and only the outermost
+exit ends the transaction.  This is what the `_inner` counter of the context object is for (it tells the
+inner exits of the owning object from its outermost exit; as a boolean — before 02b4f5f — it failed at
+the third simultaneous block, and without it — seeded change C03-3 — at the second). -/
+theorem reentered_object_joins (es : List Ev) (c : Ctx)
+    (h1 : c.inTx = false) (h2 : c.frames = []) (h3 : c.objsIdle) :
+    (c.run es).1.st = (c.run (flatten 0 es)).1.st ∧ (c.run es).1.inTx = (c.run (flatten 0 es)).1.inTx ∧
+    cmdOuts es (c.run es).2 = cmdOuts (flatten 0 es) (c.run (flatten 0 es)).2 := by
+  obtain ⟨hr, ho⟩ := nest_run es Nest.empty c c (nestRel_init c h1 h2 h3)
+  exact ⟨hr.st, hr.inTx, ho⟩
+
+/-- **A program that has closed all its blocks leaves every context object reusable**: no transaction is
+running, no block is open and every shared object is back in its initial state (`_tx = None`,
+`_inner = 0`), so the same objects can open the next outermost block (sequential re-use). -/
+theorem closed_program_leaves_objects_idle (es : List Ev)
+    (hc : (nestAfter Nest.empty es).owner = none) (c : Ctx)
+    (h1 : c.inTx = false) (h2 : c.frames = []) (h3 : c.objsIdle) :
+    (c.run es).1.inTx = false ∧ (c.run es).1.frames = [] ∧ (c.run es).1.objsIdle := by
+  obtain ⟨hr, _⟩ := nest_run es Nest.empty c c (nestRel_init c h1 h2 h3)
+  obtain ⟨_, a, b, _, d, _⟩ := hr.zero hc
+  exact ⟨a, b, d⟩
 
 /-- **A block is begin; commands; commit-or-rollback**: `async with cache.transaction(mode): <commands>`
 leaves the backend `commit` (normal exit) or `rollback` (exception) of the transaction's run leaves, and
@@ -163,6 +194,21 @@ theorem block_is_run_then_end (b : Mem) (timeout : Nat) (m : TxMode) (ops : List
   rw [this, Ctx.run_cmds ops _ rfl]
   simp only [Ctx.step]
   cases exc <;> simp [TxSt.begin_]
+
+/-- the same for a block opened on a shared context object that is not in use -/
+theorem shared_block_is_run_then_end (b : Mem) (timeout : Nat) (o : Nat) (m : TxMode) (ops : List Op) (exc : Bool) :
+    let c := (Ctx.init b timeout).run (.enterObj o m :: (ops.map .cmd ++ [.exit exc]))
+    c.1.inTx = false ∧ c.1.objs o = ⟨false, 0⟩ ∧
+    c.1.st.b = (if exc then ((TxSt.begin_ b m 1 timeout).run ops).1.rollback
+                else ((TxSt.begin_ b m 1 timeout).run ops).1.commit).b := by
+  have : ∀ (c : Ctx) (es : List Ev) (e : Ev), (c.run (es ++ [e])).1 = ((c.run es).1.step e).1 := by
+    intro c es; induction es generalizing c with
+    | nil => intro e; rfl
+    | cons e' es ih => intro e; simp only [List.cons_append, Ctx.run]; exact ih _ e
+  simp only [Ctx.run, Ctx.step, Ctx.init, Bool.false_eq_true, if_false]
+  rw [this, Ctx.run_cmds ops _ rfl]
+  simp only [Ctx.step]
+  cases exc <;> simp [TxSt.begin_, Ctx.setObj]
 
 /-! ### Non-vacuity (the sample transaction of `Props/C04.lean` meets every hypothesis used here) -/
 
@@ -186,5 +232,38 @@ example : flatten 0 [.enter .fast, .cmd (.set 0 (.tok 1) none .always), .enter .
       .cmd (.incr 2 1 none), .exit true, .exit false, .cmd (.get 0), .exit false, .cmd (.get 2)] =
     [.enter .fast, .cmd (.set 0 (.tok 1) none .always), .cmd (.incr 2 1 none), .cmd (.get 0), .exit false,
       .cmd (.get 2)] := rfl
+
+/-- a program for `reentered_object_joins` / `closed_program_leaves_objects_idle`: a shared object nested in
+itself THREE deep, a second shared object entered three times inside it, a block on an object of its own in
+between, then the first object re-used for a second outermost block — closed, and flattened -/
+example : (fun es : List Ev =>
+      (nestAfter Nest.empty es).owner = none ∧
+      flatten 0 es = [.enterObj 0 .locked, .cmd (.set 0 (.tok 1) none .always), .cmd (.incr 2 1 none), .cmd (.get 0),
+        .exit true, .enterObj 0 .locked, .cmd (.set 4 (.tok 2) none .always), .exit false])
+    [.enterObj 0 .locked, .cmd (.set 0 (.tok 1) none .always), .enterObj 0 .locked, .enterObj 0 .locked,
+      .enterObj 1 .fast, .enter .serializable, .enterObj 1 .fast, .enterObj 1 .fast, .cmd (.incr 2 1 none),
+      .exit false, .exit true, .exit false, .exit false, .exit false, .exit false, .cmd (.get 0), .exit true,
+      .enterObj 0 .locked, .enterObj 0 .locked, .cmd (.set 4 (.tok 2) none .always), .exit false, .exit false] :=
+  ⟨by decide, rfl⟩
+
+/-- the three-deep witness of the defect repaired by 02b4f5f: after the second and third block of the owning
+object have ended the transaction is still running, the lock is held and nothing is in the store; the
+exception leaving the outermost block rolls everything back -/
+example : (fun es : List Ev =>
+      ((Ctx.init (Mem.init 10) 80).run es).1.inTx = true ∧
+      ((Ctx.init (Mem.init 10) 80).run es).1.objs 0 = ⟨true, 0⟩ ∧
+      ((Ctx.init (Mem.init 10) 80).run es).1.st.b.view 0 = none ∧
+      ((Ctx.init (Mem.init 10) 80).run (es ++ [.cmd (.set 2 (.tok 2) none .always), .exit true])).1.st.b.store = [])
+    [.enterObj 0 .fast, .cmd (.set 0 (.tok 7) none .always), .enterObj 0 .fast, .enterObj 0 .fast,
+      .exit false, .exit false] := by decide
+
+/-- the model does something on it: the first outermost block is rolled back by the exception that leaves it
+(nothing of it in the store, although the re-entered block inside it ended normally), the second one commits -/
+example : ((Ctx.init (Mem.init 10) 80).run [.enterObj 0 .locked, .cmd (.set 0 (.tok 1) none .always),
+      .enterObj 0 .locked, .cmd (.set 2 (.tok 1) none .always), .exit false, .cmd (.set 4 (.tok 1) none .always),
+      .exit true, .enterObj 0 .locked, .enterObj 0 .locked, .cmd (.set 4 (.tok 2) none .always), .exit false,
+      .exit false]).1.st.b.store = [(4, ⟨.tok 2, none⟩)] := by decide
+
+example : (Ctx.init (Mem.init 10) 80).objsIdle := fun _ => rfl
 
 end CashewsVerif.Props.C03
